@@ -211,7 +211,11 @@ def check_rsvd(case):
            f"err^2={err2:.6e} ||A||^2={an * an:.6e}")
     if rank <= R and rank > 0:
         kap = s1 / float(sref[rank - 1])
-        out.le(site + ":exact when rank(A) <= R", np.sqrt(err2), (1e3 * (m + n) * U_ * kap + 10 * max(du, dv)) * an,
+        # sqrt(opt2): what the harness's rank classification treated as zero (singular values below its threshold, e.g.
+        # a second entry 1e-10 times the first) is still part of the matrix, and no rank-R factorisation can remove it
+        # (false-alarm log 8.3 item 14)
+        out.le(site + ":exact when rank(A) <= R", np.sqrt(err2),
+               (1e3 * (m + n) * U_ * kap + 10 * max(du, dv)) * an + 2.0 * np.sqrt(opt2),
                f"rank={rank} R={R} kappa={kap:.2e}")
     if rank == 0:
         out.le(site + ":zero matrix", np.sqrt(err2), 0.0 + 1e-300)
